@@ -35,6 +35,9 @@ type pDB struct {
 	flushed  []pEntry
 	commits  int
 	batchLog []string
+	ino      *fsInode // the directory the database lives in (crash-FS model), if any
+	fs       *fsModel
+	inoGen   int
 }
 
 type pBatch struct {
@@ -366,6 +369,7 @@ func init() {
 		}
 		db.ents = applyOp(p, db.ents, pOp{kind: 0, k: p.keyTerms(a[1]), v: p.valCopy(a[2])})
 		db.gen++
+		db.syncInode()
 		return Iface{}
 	})
 	reg(P+"DB).Delete", func(p *Path, _ *frame, a []Value) Value {
@@ -375,6 +379,7 @@ func init() {
 		}
 		db.ents = applyOp(p, db.ents, pOp{kind: 1, k: p.keyTerms(a[1])})
 		db.gen++
+		db.syncInode()
 		return Iface{}
 	})
 	reg(P+"DB).Flush", func(p *Path, _ *frame, a []Value) Value {
@@ -437,6 +442,7 @@ func init() {
 		b.db.gen++
 		b.db.commits++
 		b.committed = true
+		b.db.syncInode()
 		return Iface{}
 	})
 	reg(P+"Batch).Close", func(p *Path, _ *frame, a []Value) Value {
@@ -569,6 +575,3 @@ func init() {
 	})
 }
 
-// hooks of the crash-FS model (model_fs.go)
-func (p *Path) fsOpenPebble(fsv Value, dir string) *pDB { return nil }
-func (p *Path) fsPebbleFlushed(db *pDB)                {}
